@@ -16,14 +16,18 @@ import (
 //
 // Signing choices: 0 = unsigned, 1 = signed by the trusted IdP key (key 0),
 // 2 = signed by an untrusted key (key 1).
+// KeyInfo layouts of a signature: 0 = the signer's certificate (what goxmldsig emits), 1 = no KeyInfo,
+// 2 = [signer, the other test certificate], 3 = [the other test certificate, signer].
 type verifDocAssertion struct {
-	A    *Assertion
-	Sign int
+	A       *Assertion
+	Sign    int
+	KeyInfo int
 }
 
 type verifDoc struct {
 	R            *Response
 	SignResponse int
+	KeyInfo      int
 	Assertions   []verifDocAssertion
 }
 
